@@ -9,6 +9,7 @@
 package rs
 
 import (
+	"strconv"
 	"fmt"
 	"sort"
 	"strings"
@@ -508,7 +509,8 @@ func (s *Schema) Values(t *Type, depth int) []ref.Val {
 				var keep []ref.Val
 				for _, x := range c {
 					// the test is on the field's representation (an enum member's representation string)
-					if r, ok := s.Repr(s.T(f.Type), x); ok && r.K == ref.KString && !strings.Contains(r.S, t.Delim) && r.S != "" {
+					// (an empty field is representable as soon as the struct has two fields: "x:", ":y", ":")
+					if r, ok := s.Repr(s.T(f.Type), x); ok && r.K == ref.KString && !strings.Contains(r.S, t.Delim) && (r.S != "" || len(t.Fields) >= 2) {
 						keep = append(keep, x)
 					}
 				}
@@ -1145,4 +1147,81 @@ func (s *Schema) TypeNames() []string {
 	n := append([]string(nil), s.Order...)
 	sort.Strings(n)
 	return n
+}
+
+// Pos is one position of a typed value: its path by the schema's own account and the value there.
+type Pos struct {
+	Segs []string
+	V    ref.Val
+}
+
+// Positions lists the positions of typed value v (type-level view) by the schema's own account:
+// struct fields by name (absent ones left out), union members by type name, list elements by index,
+// map entries by the representation string of their key. At most limit positions.
+func (s *Schema) Positions(t *Type, v ref.Val, limit int) []Pos {
+	var out []Pos
+	var rec func(t *Type, v ref.Val, prefix []string)
+	rec = func(t *Type, v ref.Val, prefix []string) {
+		if len(out) >= limit {
+			return
+		}
+		out = append(out, Pos{append([]string(nil), prefix...), v})
+		if v.K == ref.KNull || v.K == ref.KLink {
+			return
+		}
+		sub := func(seg string, ct *Type, cv ref.Val) {
+			if cv.K == ref.KAbsent {
+				return
+			}
+			rec(ct, cv, append(append([]string(nil), prefix...), seg))
+		}
+		switch t.Kind {
+		case TStruct:
+			for i, f := range t.Fields {
+				if i < len(v.M) {
+					sub(f.Name, s.T(f.Type), v.M[i].V)
+				}
+			}
+		case TUnion:
+			if len(v.M) == 1 {
+				sub(v.M[0].K, s.T(v.M[0].K), v.M[0].V)
+			}
+		case TList:
+			for i, c := range v.L {
+				sub(strconv.Itoa(i), s.T(t.ValType), c)
+			}
+		case TMap:
+			for _, e := range v.M {
+				seg := e.K
+				if t.KeyType != "" && t.KeyType != "String" && s.T(t.KeyType).Kind == TEnum {
+					if r, ok := s.Repr(s.T(t.KeyType), ref.Str(e.K)); ok && r.K == ref.KString {
+						seg = r.S
+					}
+				}
+				sub(seg, s.T(t.ValType), e.V)
+			}
+		case TAny:
+			// a generic value below a typed position: by its own keys and indices
+			var anyRec func(v ref.Val, prefix []string)
+			anyRec = func(v ref.Val, prefix []string) {
+				for i, c := range v.L {
+					p := append(append([]string(nil), prefix...), strconv.Itoa(i))
+					if len(out) < limit {
+						out = append(out, Pos{p, c})
+						anyRec(c, p)
+					}
+				}
+				for _, e := range v.M {
+					p := append(append([]string(nil), prefix...), e.K)
+					if len(out) < limit {
+						out = append(out, Pos{p, e.V})
+						anyRec(e.V, p)
+					}
+				}
+			}
+			anyRec(v, prefix)
+		}
+	}
+	rec(t, v, nil)
+	return out
 }
